@@ -46,6 +46,9 @@ HISTS = {
     "update-adj": [("T", "new"), ("update", None), ("T", "new"), ("T", "new"), ("T", "sum")],
     "cplx-rhs": [("N", "cplx"), ("N", "new")],
     "cplxconst-rhs": [("N", "cplxconst"), ("N", "new")],
+    # a block whose FIRST column is already known (mask of newly solved columns = [False, True]), then right-hand sides
+    # that must be answered from the stored pairs
+    "block-mixed": [("N", "new"), ("N", "blockmixed"), ("N", "sum"), ("N", "repeat")],
     "cplx-span": [("N", "cplxconst"), ("N", "conjprev"), ("N", "realsum")],
     "x0": [("N", "new"), ("N", "newx0"), ("T", "newx0"), ("N", "blocknewx0")],
 }
@@ -73,6 +76,8 @@ def items(tier):
                 if hname in ("cplxconst-rhs", "cplx-span"):
                     continue
                 if hname == "x0" and (mclass != "general" and q or zp and q):
+                    continue
+                if hname == "block-mixed" and q and (mclass != "general" or len(zp) > 1):
                     continue
                 if hname == "update-adj" and (mclass != "general" or (q and len(zp) != 1)):
                     continue
@@ -251,6 +256,12 @@ def scenario(V, P, cfg):
                 b = np.array([C(0, 0)] * n, dtype=object)
             xs = b.copy()
             kind_eff = "zero"
+        elif kind == "blockmixed":
+            f = V.real("f%d" % k, nonzero=True, default=-1.5)
+            x2 = V.cplxs("x%d" % k, n) if cplxA else V.reals("x%d" % k, n)
+            xs = np.stack([f * np.asarray(same[-1][2]), np.asarray(x2)], axis=1)
+            b = M @ xs
+            kind_eff = "blockmixed"
         elif kind == "block2":
             x1 = V.cplxs("x%d" % k, n) if cplxA else V.reals("x%d" % k, n)
             f = V.real("f%d" % k, nonzero=True, default=2.0)
@@ -287,6 +298,8 @@ def scenario(V, P, cfg):
             P.holds(lab + ":shape", np.shape(x) == np.shape(b), kind="shape")
             if expect_reuse and tol == 0:
                 P.holds(lab + ":no-inner-solve", called == 0, kind="reuse")
+            if kind_eff == "blockmixed" and tol == 0:
+                P.holds(lab + ":one-inner-column", called <= 1, kind="reuse")
             if kind_eff == "block2" and tol == 0:
                 P.holds(lab + ":one-inner-column", called <= 1, kind="reuse")
             if kind_eff == "zero":
